@@ -845,13 +845,17 @@ def getitem(ctx, obj, idx):
         raise Unsupported("indexing a digest abstraction")
     if isinstance(obj, SStr):
         if isinstance(idx, slice):
-            if contains_sym((idx.start, idx.stop, idx.step)) or idx.step not in (None, 1):
+            if contains_sym(idx.step) or idx.step not in (None, 1) or \
+                    any(isinstance(b, Sym) and not isinstance(b, SInt) for b in (idx.start, idx.stop)):
                 raise Unsupported("symbolic/stepped slice of symbolic str")
             L = z3.Length(obj.term)
 
             def norm(i, default):
                 if i is None:
                     return default
+                if isinstance(i, SInt):
+                    t = i.term
+                    return z3.If(t >= 0, z3.If(L < t, L, t), z3.If(L + t < 0, z3.IntVal(0), L + t))
                 if i >= 0:
                     return z3.If(L < i, L, z3.IntVal(i))
                 return z3.If(L + i < 0, z3.IntVal(0), L + i)
@@ -865,6 +869,12 @@ def getitem(ctx, obj, idx):
             if ctx.branch(z3.Or(pos < 0, pos >= L)):
                 raise SymRaise(IndexError("string index out of range"))
             return SStr(z3.SubString(obj.term, pos, 1))
+        if isinstance(idx, SInt):
+            L = z3.Length(obj.term)
+            i = idx.term
+            if ctx.branch(z3.Or(i >= L, i < -L)):
+                raise SymRaise(IndexError("string index out of range"))
+            return SStr(z3.SubString(obj.term, z3.If(i >= 0, i, L + i), 1))
         raise Unsupported("symbolic index into symbolic str")
     if isinstance(obj, Sym):
         raise SymRaise(TypeError("'%s' object is not subscriptable" % obj.pytype.__name__))
